@@ -52,8 +52,9 @@ class MockFS:
 
     def store(self, prov, fso):
         self._objects[prov.normalize_path(fso.path)] = fso
-        if fso.oid not in self._objects:
-            self._objects[fso.oid] = fso
+        # always (re)bind the oid: a deleted object keeps its entries, and on a case-insensitive
+        # path-id provider the oid key ("/A") differs from the path key ("/a")
+        self._objects[fso.oid] = fso
 
     def unstore(self, prov, fso):
         del self._objects[prov.normalize_path(fso.path)]
